@@ -29,7 +29,9 @@ REQUIRED = ['ci_linear', 'ci_log', 'ci_contains', 'ci_nested', 'ci_exp_contains'
             'semibayes_log_def', 'semibayes_log_ci', 'post_mean_between', 'post_var_le', 'semibayes_coherent',
             'z_of_alpha_pos', 'semibayes_nested', 'counternull_def', 'counternull_recovers_se', 'logit_roundtrip',
             'inverse_logit_roundtrip', 's_value_def', 'screening_per_capita', 'screening_costs',
-            'real_calc2_transc_ok', 'real_logit_roundtrip']
+            'real_calc2_transc_ok', 'real_logit_roundtrip',
+            # Props/C06_Icr.lean: interaction_contrast_ratio(ci='delta') of zepid/base.py (Gen/Icr.lean)
+            'icr_delta_def', 'icr_indep_alpha', 'icr_coherent']
 RULE = ('alpha runs over a fixed grid (25 equally spaced values in (0,1), the extremes 1e-6/1e-3/0.999, and 0.05 with its '
         'neighbours 0.049999/0.050001); for every (estimator, configuration, data set) the whole grid is evaluated and the '
         'limits, containment, nestedness across the grid and alpha-independence of estimate/se are judged; streams: count '
@@ -37,7 +39,7 @@ RULE = ('alpha runs over a fixed grid (25 equally spaced values in (0,1), the ex
         '(reduced grid: each fit is seconds), IPTW (fixed 95%), and calculate_joint_estimate / tmle_calculator / '
         'aipw_calculator directly on random vectors; the second batch of zepid/calc/utils.py (sensitivity, specificity, '
         'ppv/npv_converter, screening_cost_analyzer, rubins_rules, semibayes, counternull_pvalue, s_value, logit, '
-        'inverse_logit: a valid stream and a malformed stream reaching every raise; semibayes / counternull_pvalue are fed '
+        'inverse_logit, and interaction_contrast_ratio with the delta-method interval on simulated data: a valid stream and a malformed stream reaching every raise; semibayes / counternull_pvalue are fed '
         'limits built at the alpha they are called with) and the Sensitivity / Specificity / Diagnostics result tables. distinct = distinct (stream, configuration, data hash, alpha); '
         'non-trivial = se > 0 and finite')
 ASSUMPTIONS = ['scipy.stats.norm.ppf is strictly increasing on the alpha grid and ppf(0.5) = 0 (measured each run)',
